@@ -1005,12 +1005,19 @@ class AASFromXmlDecoder:
     def construct_specific_asset_id(cls, element: etree._Element, object_class=model.SpecificAssetId,
                                     **_kwargs: Any) -> model.SpecificAssetId:
         # semantic_id can't be applied by _amend_abstract_attributes because specificAssetId is immutable
+        supplemental_semantic_id = []
+        supplemental_semantic_ids = element.find(NS_AAS + "supplementalSemanticIds")
+        if supplemental_semantic_ids is not None:
+            for ref in _child_construct_multiple(supplemental_semantic_ids, NS_AAS + "reference",
+                                                 cls.construct_reference, cls.failsafe):
+                supplemental_semantic_id.append(ref)
         return object_class(
             name=_get_text_or_none(element.find(NS_AAS + "name")),
             value=_get_text_or_none(element.find(NS_AAS + "value")),
             external_subject_id=_failsafe_construct(element.find(NS_AAS + "externalSubjectId"),
                                                     cls.construct_external_reference, cls.failsafe),
-            semantic_id=_failsafe_construct(element.find(NS_AAS + "semanticId"), cls.construct_reference, cls.failsafe)
+            semantic_id=_failsafe_construct(element.find(NS_AAS + "semanticId"), cls.construct_reference, cls.failsafe),
+            supplemental_semantic_id=supplemental_semantic_id
         )
 
     @classmethod
